@@ -7,7 +7,8 @@ E1 = {
     "C02": (["contracts.c01"], ["Inference._prune_bayesian_model"]),
     "C03": (["contracts.c01"], ["Inference._prune_bayesian_model"]),
     "C08": (["contracts.c08"], ["DAG._get_ancestors_of", "DAG.active_trail_nodes", "DAG.is_dconnected", "DAG.get_markov_blanket",
-                                 "BayesianNetwork.get_markov_blanket", "DAG.moralize", "DAG.get_ancestral_graph", "DAG.local_independencies", "DAG.minimal_dseparator"]),
+                                 "BayesianNetwork.get_markov_blanket", "DAG.moralize", "DAG.get_ancestral_graph", "DAG.local_independencies", "DAG.minimal_dseparator",
+                                 "DAG.get_independencies"]),
     "C09": (["contracts.c09"], ["XMLBIFReader.get_edges", "BIFReader.get_edges", "NETReader.get_edges"]),
     "C10": (["contracts.c10"], ["StructureScore.score"]),
     "C11": (["contracts.c11"], ["HillClimbSearch._legal_operations", "HillClimbSearch.estimate"]),
